@@ -5,12 +5,16 @@
 package schemagen
 
 import (
+	"context"
 	"database/sql/driver"
 	"encoding/json"
 	"fmt"
+	"reflect"
 	"sort"
 	"strconv"
 	"strings"
+
+	"gorm.io/gorm/schema"
 )
 
 // ---- harness-defined scanner/valuer types ---------------------------------------------------
@@ -180,3 +184,74 @@ type GobDoc struct {
 	Tags  []string
 	Count map[string]int
 }
+
+// ---- field types that implement schema.SerializerInterface themselves ---------------------------
+//
+// Both Scan methods are written the way such types usually are: they decode into
+// the receiver and rely on gorm handing them a fresh (zero) receiver for every
+// row. A NULL column leaves the receiver as it is; omitted JSON members are not
+// reset; json.Unmarshal reuses the backing array of a slice that is already there.
+
+// SerDoc is a struct whose optional members are omitted from the stored JSON; the zero value is stored as NULL.
+type SerDoc struct {
+	Name string         `json:"name,omitempty"`
+	Tags []string       `json:"tags,omitempty"`
+	Meta map[string]int `json:"meta,omitempty"`
+	N    *int           `json:"n,omitempty"`
+}
+
+func (d SerDoc) isZero() bool {
+	return d.Name == "" && len(d.Tags) == 0 && len(d.Meta) == 0 && d.N == nil
+}
+
+// Scan implements schema.SerializerInterface.
+func (d *SerDoc) Scan(ctx context.Context, field *schema.Field, dst reflect.Value, dbValue interface{}) error {
+	switch v := dbValue.(type) {
+	case nil:
+		return nil
+	case string:
+		return json.Unmarshal([]byte(v), d)
+	case []byte:
+		return json.Unmarshal(v, d)
+	}
+	return fmt.Errorf("schemagen.SerDoc: cannot scan %T", dbValue)
+}
+
+// Value implements schema.SerializerValuerInterface.
+func (d SerDoc) Value(ctx context.Context, field *schema.Field, dst reflect.Value, fieldValue interface{}) (interface{}, error) {
+	if d.isZero() {
+		return nil, nil
+	}
+	b, err := json.Marshal(d)
+	return string(b), err
+}
+
+// SerList is a slice stored as a JSON array; nil is stored as NULL.
+type SerList []string
+
+// Scan implements schema.SerializerInterface.
+func (l *SerList) Scan(ctx context.Context, field *schema.Field, dst reflect.Value, dbValue interface{}) error {
+	switch v := dbValue.(type) {
+	case nil:
+		return nil
+	case string:
+		return json.Unmarshal([]byte(v), l)
+	case []byte:
+		return json.Unmarshal(v, l)
+	}
+	return fmt.Errorf("schemagen.SerList: cannot scan %T", dbValue)
+}
+
+// Value implements schema.SerializerValuerInterface.
+func (l SerList) Value(ctx context.Context, field *schema.Field, dst reflect.Value, fieldValue interface{}) (interface{}, error) {
+	if l == nil {
+		return nil, nil
+	}
+	b, err := json.Marshal([]string(l))
+	return string(b), err
+}
+
+var (
+	_ schema.SerializerInterface = (*SerDoc)(nil)
+	_ schema.SerializerInterface = (*SerList)(nil)
+)
